@@ -14,6 +14,7 @@ import (
 	"sync"
 	"time"
 
+	"github.com/IrineSistiana/mosproxy/app/router"
 	"github.com/IrineSistiana/mosproxy/internal/limiter"
 	"github.com/IrineSistiana/mosproxy/internal/verifhook"
 	"github.com/IrineSistiana/mosproxy/internal/zzverif/vtrace"
@@ -220,6 +221,9 @@ func main() {
 			}
 			cl.Close()
 			gcRace(r)
+			if r%5 == 0 {
+				globalRound(r)
+			}
 		}
 	}
 	fmt.Printf("stims=%d random=%d events=%d\n", ns, *random, tr.N)
@@ -242,6 +246,15 @@ func gcRace(r int) {
 		tr.Emit("lim.v", "addr", fromAddr(ad), "t", ms, "n", n, "res", res)
 	}
 	call(nowMs()-300000, 1) // five minutes ago: idle and full again by now
+	// from here on the decisions are recorded by the hook inside AllowN, under the bucket's lock: two callers run
+	// at the same time and the file order has to be the order of the decisions
+	verifhook.SetSink(func(name string, args []any) {
+		if name == "lim.cl" && args[0] == any(cl) {
+			tr.Emit("lim.v", "addr", fromAddr(args[1].(netip.Addr)), "t", int(args[3].(time.Time).Sub(base)/time.Millisecond), "n", args[4], "res", args[5])
+		}
+	})
+	defer verifhook.SetSink(nil)
+	quiet := func() { cl.AllowN(ad, at(nowMs()), 1) }
 	reached, gate := make(chan struct{}, 1), make(chan struct{})
 	verifhook.SetSched(func(name string, args []any) {
 		if name == "lim.gc" && args[0] == any(cl) {
@@ -256,22 +269,61 @@ func gcRace(r int) {
 	case <-reached:
 	case <-gcDone:
 	}
-	b1 := make(chan struct{})
-	go func() {
-		for i := 0; i < burst; i++ {
-			call(nowMs(), 1)
-		}
-		close(b1)
-	}()
+	var b1 sync.WaitGroup
+	for g := 0; g < 2; g++ { // two callers of the subnet come back while the collector is at work
+		b1.Add(1)
+		go func() {
+			defer b1.Done()
+			for i := 0; i < burst; i++ {
+				quiet()
+			}
+		}()
+	}
+	b1done := make(chan struct{})
+	go func() { b1.Wait(); close(b1done) }()
 	select {
-	case <-b1:
+	case <-b1done:
 	case <-time.After(30 * time.Millisecond): // these calls may have to wait for the collector
 	}
 	close(gate)
 	<-gcDone
-	<-b1
+	<-b1done
 	tr.Emit("lim.gc", "t", nowMs())
 	for i := 0; i <= burst; i++ {
-		call(nowMs(), 1)
+		quiet()
 	}
+}
+
+// globalRound: the router's resource limiter in real time. Four subnets spend the whole global budget; a fifth
+// one is refused meanwhile (by the global limit); once the global budget is back, the fifth subnet - which was
+// admitted nothing - has its whole burst.
+func globalRound(r int) {
+	base := time.Now()
+	nowMs := func() int { return int(time.Since(base) / time.Millisecond) }
+	var lc router.LimiterConfig
+	lc.GlobalLimit = 20
+	lc.Client.Limit, lc.Client.Burst = 1, 5
+	allow, closeL := router.VerifResourceLimiter(lc)
+	defer closeL()
+	tr.Emit("lim.cfg", "limit", 1, "burst", 5, "v4", 0, "v6", 0, "glimit", 20, "t", nowMs())
+	call := func(a string, n int) {
+		ad := netip.MustParseAddr(a)
+		t := nowMs()
+		tr.Emit("lim.r", "addr", fromAddr(ad), "t", t, "n", n, "res", allow(ad, n))
+	}
+	for i := 0; i < 5; i++ {
+		for _, a := range []string{"10.7.1.1", "10.7.2.9", "2001:db8:7:1::1", "10.7.4.200"} {
+			call(a, 1)
+		}
+	}
+	for i := 0; i < 5; i++ {
+		call("10.7.9.1", 1) // the global budget is gone: refused, its own bucket untouched
+	}
+	call("10.7.1.77", 1)
+	time.Sleep(1400 * time.Millisecond)
+	for i := 0; i < 4; i++ {
+		call("10.7.9.1", 1)
+	}
+	call("10.7.1.1", 1) // 1.4 tokens
+	call("10.7.1.1", 1)
 }
